@@ -164,4 +164,35 @@ def standin_state_histories(tier, seed):
                            histories_per_graph=n_hist, history_length=length, exhaustive=False, seed=seed))
 
 
-STANDINS = [standin_state_histories]
+def standin_mixture_fit(tier, seed):
+    """the mixture model is outside the graphs of the history monitor (its variables carry a cluster axis); a short real fit
+    exercises the partial revert on weighted tensors without weights, and every derived variable read afterwards must equal
+    its definition evaluated from scratch"""
+    import leaspy.models  # noqa
+    from leaspy.models import model_factory
+    from leaspy.io.data import Data, Dataset
+    from .common import cohort, quiet
+    violations, evals = [], 0
+    df = cohort(seed, n_ind=12, n_ft=3)
+    try:
+        m = model_factory("mixture_logistic", n_clusters=2, source_dimension=1, dimension=3)
+        with quiet():
+            m.fit(Data.from_dataframe(df), "mcmc_saem", seed=seed, n_iter=12 if tier == "quick" else 40, progress_bar=False)
+    except Exception as e:
+        return dict(evaluations=1, distinct_nontrivial=1, rule="one evaluation = one short fit of the mixture model", samples=[],
+                    violations=[dict(key=f"a short fit of the mixture model aborts: {type(e).__name__}: {str(e)[:100]}")], bound=dict(exhaustive=False))
+    st = m.state
+    for n in st.dag:
+        try:
+            got = st[n]
+            want = from_scratch(st, n)
+        except Exception:
+            continue
+        evals += 1
+        if not same_value(got, want, exact=False, tol=1e-5):
+            violations.append(dict(key=f"mixture model: stale read of {n} after a fit"))
+    return dict(evaluations=evals + 1, distinct_nontrivial=evals, rule="one evaluation = one variable of the fitted mixture model compared with its from-scratch value (+ the fit itself)",
+                samples=[dict(model="mixture_logistic, 2 clusters")], violations=violations[:60], bound=dict(n_iter=12 if tier == "quick" else 40, exhaustive=False))
+
+
+STANDINS = [standin_state_histories, standin_mixture_fit]
